@@ -21,7 +21,7 @@ def suiteOf (name : String) : Option Suite :=
   match name with
   | "units" => some (statelessSuite unitsStep)
   | "param" => some { σ := ParamState, init := {}, step := paramStep }
-  | "mixer" => some { σ := MixState, init := {}, step := mixStep }
+  | "mixer" | "mixtrk" | "mixpart" => some { σ := MixState, init := {}, step := mixStep }
   | _ => none
 
 def tokens (line : String) : List String :=
